@@ -33,6 +33,7 @@ def main() -> int:
         print(f"no check for {prop}", file=sys.stderr)
         return 2
     env.install()
+    env.scratch_dir()
     if args.replay:
         with open(args.replay) as f:
             payload = json.load(f)
